@@ -657,6 +657,9 @@ def _x_specs():
     rvars2 = dict(density=(0.7, u.kg / u.dm3), doserate_alpha=(11.0, u.gray / s), doserate_beta=(13.0, u.gray / s))
     add("Radiolytic_alpha_beta", mk_Radiolytic("alpha", "beta"), [(3e-7, 5e-8), (5e-7,)], [u.mol / u.joule] * 2, lambda a, env: RX.radiolytic([a[0], a[1]], [11.0, 13.0], 0.7), (1, -1, 0),
         variables=rvars2, altvals=[2e-7, 9e-8])
+    rvars3 = dict(density=(0.998, u.kg / u.dm3), doserate_gamma=(30.0, u.gray / s), doserate_alpha=(0.15, u.gray / s))
+    add("Radiolytic_gamma_alpha", mk_Radiolytic("gamma", "alpha"), [(4.5e-8, 3e-7), (2.1e-7,)], [u.mol / u.joule] * 2, lambda a, env: RX.radiolytic([a[0], a[1]], [30.0, 0.15], 0.998), (1, -1, 0),
+        variables=rvars3, altvals=[2e-7, 9e-8])  # names given in non-alphabetical order: yields pair with dose rates in the given order
     add("GibbsEqConst", GibbsEqConst, [(-5000.0, 0.0, 5000.0), (-3.0, 2.0)], [K, 1], lambda a, env: RX.gibbs_eq_const(a[0], a[1], env["T"]), RX.ZERO_DIM, altvals=[1234.0, 0.5],
         scaled={0: u.rankine, "temperature": u.rankine})
     add("MassActionEq", MassActionEq, [(1e-14, 55.5)], [1], lambda a, env: (a[0], 0.0), RX.ZERO_DIM, variables={}, altvals=[42.0])
@@ -1125,6 +1128,28 @@ def _run_SC(res):
         def __call__(self, T, constants=None, units=None, backend=None):
             return 2.083661912e10 * T * math.exp(self.dS) * math.exp(-self.dH / T)
 
+    # the unitless twin of a unit-carrying expression (what the ODE builder works with when given a unit registry) keeps the names of its
+    # arguments: a named override replaces exactly that argument there too
+    from chempy.kinetics.rates import Arrhenius
+    from chempy.units import SI_base_registry
+
+    uu = _U()
+    for oname, over, want in (("no override", {}, 2e9 * math.exp(-4200.0 / 325.0)), ("A overridden", {"A_r1": 5e7}, 5e7 * math.exp(-4200.0 / 325.0)),
+                              ("Ea/R overridden", {"EaR_r1": 3000.0}, 2e9 * math.exp(-3000.0 / 325.0)), ("both overridden", {"A_r1": 5e7, "EaR_r1": 3000.0}, 5e7 * math.exp(-3000.0 / 325.0))):
+        res.states += 1
+        res.transitions += 1
+        res.evaluations += 1
+        res.nontrivial += 1
+        try:
+            twin = Arrhenius([2e9 / uu.second, 4200 * uu.kelvin], unique_keys=("A_r1", "EaR_r1")).dedimensionalisation(SI_base_registry)[1]
+            o = float(twin(dict({"temperature": 325.0}, **over)))
+        except Exception as ex:
+            o = _exc_tag(ex)
+        ok = not isinstance(o, str) and abs(o - want) <= 1e-12 * abs(want)
+        res.outcomes["SC:dedimensionalised:%s" % ("agrees" if ok else "DIFFERS")] += 1
+        if not ok:
+            res.violation("C16|Arrhenius|dedimensionalised-twin|named-override|%s" % oname.replace(" ", "-"), "Arrhenius([2e9/s, 4200 K], unique_keys=('A_r1', 'EaR_r1')).dedimensionalisation(SI)[1] at 325 K, %s %r: %r, defining formula %r" % (
+                oname, over, o, want), dict(layer="SC", cname="dedimensionalised", T=oname), observed=o, expected=want)
     conc = {"NO2": 0.03, "CO": 1.7}
     cprod = 0.03 ** 2 * 1.7
     res.sample(dict(layer="SC", reaction="2 NO2 + CO -> 2 NO + CO2", T=[250.0, 298.15, 700.0, 1900.0]), limit=1)
@@ -1158,7 +1183,7 @@ def chunks(tier):
     return out
 
 
-_N_XSPECS = 35  # asserted in run_chunk
+_N_XSPECS = 36  # asserted in run_chunk
 
 
 def run_chunk(chunk, tier):
